@@ -38,6 +38,16 @@ func metricValue(m *dto.Metric) float64 {
 	return 0
 }
 
+// GatherErr is Gather plus the error of the gatherer, if any: what the agent's /metrics endpoint (promhttp handler with
+// the default HTTPErrorOnError) would answer with status 500 instead of any metrics.
+func GatherErr(g prometheus.Gatherer) (Metrics, string) {
+	_, err := g.Gather()
+	if err != nil {
+		return Gather(g), err.Error()
+	}
+	return Gather(g), ""
+}
+
 // MetricKey formats a metric name with labels.
 func MetricKey(name string, labels []*dto.LabelPair) string {
 	parts := make([]string, 0, len(labels))
